@@ -817,6 +817,60 @@ def reaction_lists_frozen(ctx, rule):
             and not (fn.name.startswith("rate") or fn.name in ("__format__", "__str__", "__repr__", "__eq__", "__hash__", "__lt__"))
 
     todo = [(ci.file, ci.name, fn) for ci in pkg.classes.values() for fn in ci.methods.values()] + [(f, None, fn) for (f, _), fn in pkg.functions.items()]
+
+    def params_of(fn):
+        return [a.arg for a in fn.args.posonlyargs + fn.args.args + fn.args.kwonlyargs]
+
+    def is_static(fn):
+        return any(ast.unparse(d) == "staticmethod" for d in fn.decorator_list)
+
+    def _edited_owner(n, aliases):
+        """the plain name whose .reactants / .products the statement edits (through the attribute or an alias of it), else None"""
+        for x in ast.walk(n):
+            e = None
+            if isinstance(x, ast.Attribute) and x.attr in ATTRS:
+                e = x
+            elif isinstance(x, ast.Name) and x.id in aliases:
+                e = aliases[x.id]
+            if e is not None:
+                return e.value.id if isinstance(e.value, ast.Name) else None
+        return None
+
+    def call_sites(file, cls, callee, pname):
+        """per call of `callee` found in the package: True when the argument bound to `pname` is the caller's own `self` inside a method
+        that builds the object (owner_self), False when it is some other readable name, None when it is not read"""
+        out = []
+        pos = params_of(callee).index(pname)
+        bound = cls is not None and not is_static(callee)            # called through an instance: the first parameter is the receiver
+        for cfile, ccls, caller in todo:
+            if caller is callee:
+                continue
+            for c in ast.walk(caller):
+                if not isinstance(c, ast.Call):
+                    continue
+                if cls is None:
+                    hit = isinstance(c.func, ast.Name) and c.func.id == callee.name and (cfile == file or True)
+                else:
+                    hit = isinstance(c.func, ast.Attribute) and c.func.attr == callee.name
+                if not hit:
+                    continue
+                if any(isinstance(a, ast.Starred) for a in c.args) or any(k.arg is None for k in c.keywords):
+                    out.append(None)
+                    continue
+                i = pos - (1 if bound else 0)
+                arg = c.args[i] if 0 <= i < len(c.args) else next((k.value for k in c.keywords if k.arg == pname), None)
+                if i < 0:
+                    arg = c.func.value
+                if arg is None:
+                    out.append(None)
+                elif isinstance(arg, ast.Name) and ccls is not None and caller.args.args and arg.id == caller.args.args[0].arg and not is_static(caller) \
+                        and not (caller.name.startswith("rate") or caller.name in ("__format__", "__str__", "__repr__", "__eq__", "__hash__", "__lt__")):
+                    out.append(True)
+                elif isinstance(arg, (ast.Name, ast.Attribute)):
+                    out.append(False)
+                else:
+                    out.append(None)
+        return out
     for file, cls, fn in todo:
         n_funcs += 1
         aliases = {}
@@ -861,6 +915,18 @@ def reaction_lists_frozen(ctx, rule):
                     elif isinstance(n, ast.AugAssign) and isinstance(n.op, (ast.Add, ast.Mult)) and list_attr(t) and not owner_self(t, fn, cls):
                         hits.append((n, ast.unparse(n)[:80]))
         for n, what in hits:
+            # the list of an object the function is HANDED (`def _fill(reaction, names): reaction.reactants.append(..)`, a block of the
+            # reader extracted into a function of the module / a static helper): whose list that is, is decided at the call sites
+            own = _edited_owner(n, aliases)
+            if own is not None and own in params_of(fn) and not (cls is not None and fn.args.args and own == fn.args.args[0].arg and not is_static(fn)):
+                sites = call_sites(file, cls, fn, own)
+                if sites and all(sites):
+                    continue                # every caller hands in the object it is constructing
+                if not sites or any(x is None for x in sites):
+                    ctx.unrec(rule, f"{cls + '.' if cls else ''}{fn.name}:edits-reaction-list:{norm_text(what)[:60]}", (file, n.lineno),
+                              f"`{what}` edits the reactant / product list of the object passed as `{own}`: the callers of `{fn.name}` are not all read, so whether "
+                              "that object is still under construction is not decided")
+                    continue
             ctx.bad(rule, f"{cls + '.' if cls else ''}{fn.name}:edits-reaction-list:{norm_text(what)[:60]}", (file, n.lineno),
                     f"`{what}` edits the reactant / product list of a reaction object in place (no copy): every later reader -- the ODE terms of "
                     "_prepare_ode_content are assembled after the rates -- sees a reaction that is not the input reaction (a reactant factor and its loss term vanish)",
